@@ -71,6 +71,10 @@ fn main() {
                 std::process::exit(2);
             }
         }
+        "gen-minimal-mates" => {
+            let n: usize = args.get(2).and_then(|s| s.parse().ok()).unwrap_or(8);
+            print!("{}", walleye::endgames::generate(n));
+        }
         "selftest" if args.get(2).map(|s| s == "pools").unwrap_or(false) => {
             let t = std::time::Instant::now();
             let pool = walleye::workload::forced_special_pool();
@@ -100,7 +104,16 @@ fn main() {
             }
         }
         "selftest" => match referee::self_check(4) {
-            Ok(n) => println!("referee ok, {} nodes", n),
+            Ok(n) => {
+                println!("referee ok, {} nodes", n);
+                match walleye::endgames::self_check() {
+                    Ok(k) => println!("minimal-material mate list ok, {} positions", k),
+                    Err(e) => {
+                        eprintln!("minimal-material mate list: {}", e);
+                        std::process::exit(2);
+                    }
+                }
+            }
             Err(e) => {
                 eprintln!("referee self-check failed: {}", e);
                 std::process::exit(2);
